@@ -12,9 +12,12 @@ MUTANTS = [
     ("getcanid-memoised", [("message.go", "\tcycleTime      int\n\tsendType       MessageSendType", "\tcanIDCache     CANID\n\tcanIDCached    bool\n\tcycleTime      int\n\tsendType       MessageSendType"),
                            ("message.go", "\treturn nodeInt.parentBus.canIDBuilder.Calculate(m.priority, m.id, nodeInt.node.id)\n}",
                             "\tif !m.canIDCached {\n\t\tm.canIDCache = nodeInt.parentBus.canIDBuilder.Calculate(m.priority, m.id, nodeInt.node.id)\n\t\tm.canIDCached = true\n\t}\n\treturn m.canIDCache\n}")]),
-    # a getter sorts the shared slice in place (same order as before: a same-value write)
+    # a getter sorts the shared slice "in place": sorts a copy and copies it back (same order: same-value writes)
     ("signals-getter-sorts-in-place", [("message.go", "func (m *Message) Signals() []Signal {\n\treturn m.signalLayout.signals\n}",
-                                        "func (m *Message) Signals() []Signal {\n\tss := m.signalLayout.signals\n\tfor i := 1; i < len(ss); i++ {\n\t\tfor j := i; j > 0 && ss[j-1].GetStartBit() >= ss[j].GetStartBit(); j-- {\n\t\t\tss[j-1], ss[j] = ss[j], ss[j-1]\n\t\t}\n\t}\n\treturn ss\n}")]),
+                                        "func (m *Message) Signals() []Signal {\n\ttmp := slices.Clone(m.signalLayout.signals)\n\tslices.SortFunc(tmp, func(a, b Signal) int { return a.GetStartBit() - b.GetStartBit() })\n\tcopy(m.signalLayout.signals, tmp)\n\treturn m.signalLayout.signals\n}")]),
+    # a getter really sorts the shared slice in place, by another key (order changes)
+    ("signals-getter-sorts-by-name-in-place", [("message.go", "func (m *Message) Signals() []Signal {\n\treturn m.signalLayout.signals\n}",
+                                                "func (m *Message) Signals() []Signal {\n\tslices.SortFunc(m.signalLayout.signals, func(a, b Signal) int { return strings.Compare(b.Name(), a.Name()) })\n\treturn m.signalLayout.signals\n}")]),
     # a sorted getter sorts the node's own interface slice by descending number and back (net effect nil)
     ("interfaces-getter-reverses-twice", [("node.go", "func (n *Node) Interfaces() []*NodeInterface {\n\treturn n.interfaces\n}",
                                            "func (n *Node) Interfaces() []*NodeInterface {\n\tfor k := 0; k < 2; k++ {\n\t\tfor i, j := 0, len(n.interfaces)-1; i < j; i, j = i+1, j-1 {\n\t\t\tn.interfaces[i], n.interfaces[j] = n.interfaces[j], n.interfaces[i]\n\t\t}\n\t}\n\treturn n.interfaces\n}")]),
